@@ -126,8 +126,8 @@ pub fn wrap_is_spec(KL: usize, PL: usize, mem: u64, time: u32, para: u32, defaul
     let kb: [u8; KX] = kani::any();
     let ptk = &kb[..KL];
     vmodel_core::rng_may_fail(false);
-    let d0 = vmodel_core::rng_preview(0);
-    let d1 = vmodel_core::rng_preview(1);
+    let d0 = vmodel_core::rng_preview_len(16);
+    let d1 = vmodel_core::rng_preview_len(24);
     let mut salt = [0u8; 16];
     salt.copy_from_slice(&d0[..16]);
     let mut n = [0u8; 24];
@@ -142,7 +142,7 @@ pub fn wrap_is_spec(KL: usize, PL: usize, mem: u64, time: u32, para: u32, defaul
     vcheck_all!(
         (ok, "[C05] password wrapping with valid parameters always succeeds"),
         (!ok || out.len() == 88 + KL, "[C05] PBKW blob has the fixed length 16+8+4+4+24+|key|+32"),
-        (vmodel_core::rng_draws() == 2 && vmodel_core::rng_draw(0).len == 16 && vmodel_core::rng_draw(1).len == 24, "[C16] PBKW draws a fresh 16-byte salt and a fresh 24-byte nonce"),
+        (vmodel_core::rng_draws() == 2 && vmodel_core::rng_has_len(16) && vmodel_core::rng_has_len(24), "[C16] PBKW draws a fresh 16-byte salt and a fresh 24-byte nonce"),
         (!ok || out[..] == spec[..], "[C07] PBKW output equals the PASERK specification's blob for the salt, nonce and parameters it embeds"),
     );
 }
@@ -247,8 +247,8 @@ pub fn wrap_fail_closed() {
     let r = <V4 as PwWrapVersion>::pw_wrap_key(".local-pw.", &pw, &Params::default(), kb.to_vec());
     let all_ok = vmodel_core::rng_all_ok();
     let two = vmodel_core::rng_draws() == 2;
-    let d0 = vmodel_core::rng_draw(0);
-    let d1 = vmodel_core::rng_draw(1);
+    let d0 = vmodel_core::rng_draw_of_len(16); // order of the two independent draws is not part of the property
+    let d1 = vmodel_core::rng_draw_of_len(24);
     let ok = r.is_ok();
     let out = r.unwrap_or_default();
     vcheck_all!(
